@@ -264,3 +264,36 @@
         let cw = ann_content_width(spans, bpd, dpg, n);
         tc_header(ow, obw, aw, base) + tc_rows(fs, v, spans, base, bpd, dpg, ow, obw, aw, cw, n)
     }
+
+    // ---- contiguous blocks (C11, Intel HEX): property text as "the same set of output bits"
+    pub open spec fn in_span(sp: BitVecSpan, x: nat) -> bool { sp.offset is Some && sp.offset->0 <= x < sp.offset->0 + sp.size }
+    pub open spec fn in_block(b: BitVecBlock, x: nat) -> bool { b.offset <= x < b.offset + b.size }
+    /// bit x belongs to one of the first n recorded items
+    pub open spec fn spans_cover(ss: Seq<BitVecSpan>, n: int, x: nat) -> bool decreases n {
+        n > 0 && (spans_cover(ss, n - 1, x) || in_span(ss[n - 1], x))
+    }
+    /// bit x belongs to one of the first n blocks
+    pub open spec fn blocks_cover(bs: Seq<BitVecBlock>, n: int, x: nat) -> bool decreases n {
+        n > 0 && (blocks_cover(bs, n - 1, x) || in_block(bs[n - 1], x))
+    }
+    pub proof fn lemma_blocks_cover_prefix(a: Seq<BitVecBlock>, b: Seq<BitVecBlock>, n: int, x: nat)
+        requires 0 <= n <= a.len(), n <= b.len(), forall|k: int| 0 <= k < n ==> a[k] == b[k]
+        ensures blocks_cover(a, n, x) == blocks_cover(b, n, x)
+        decreases n
+    {
+        if n > 0 { lemma_blocks_cover_prefix(a, b, n - 1, x); }
+    }
+    pub proof fn lemma_blocks_cover_push(bs: Seq<BitVecBlock>, b: BitVecBlock)
+        ensures forall|x: nat| #[trigger] blocks_cover(bs.push(b), bs.len() as int + 1, x) == (blocks_cover(bs, bs.len() as int, x) || in_block(b, x))
+    {
+        assert forall|x: nat| #[trigger] blocks_cover(bs.push(b), bs.len() as int + 1, x) == (blocks_cover(bs, bs.len() as int, x) || in_block(b, x)) by {
+            lemma_blocks_cover_prefix(bs.push(b), bs, bs.len() as int, x);
+        }
+    }
+    /// the open run [origin, origin + size)
+    pub open spec fn run_covers(origin: Option<usize>, size: usize, x: nat) -> bool { origin is Some && origin->0 <= x < origin->0 + size }
+    pub proof fn lemma_spans_cover_step(ss: Seq<BitVecSpan>, k: int)
+        requires k >= 0
+        ensures forall|x: nat| #[trigger] spans_cover(ss, k + 1, x) == (spans_cover(ss, k, x) || in_span(ss[k], x))
+    {
+    }
